@@ -2231,7 +2231,9 @@ def verify(contract, discharge_now=True):
     except z3.Z3Exception as e:
         rep.status = "mismatch"
         rep.detail = f"contract could not be evaluated on this code: z3: {e}"
-    except (TypeError, ValueError, IndexError) as e:
+    except (PathEnd, _Return, _Break, _Continue, PyRaise):
+        raise
+    except Exception as e:  # noqa: any other failure inside contract code: the contract cannot be evaluated here
         import traceback
         rep.status = "mismatch"
         rep.detail = f"contract could not be evaluated on this code: {type(e).__name__}: {e} :: " + \
